@@ -103,6 +103,9 @@ class Report:
             paths.append(path)
             print(f"VIOLATION property={self.prop} replay={path}")
             print("   " + json.dumps(sig, default=str)[:400])
+        if self.violations:
+            with open(os.path.join(REPLAYS, f"{self.prop}-all.json"), "w") as f:
+                json.dump([{"sig": s_, "art": a_} for s_, a_ in self.violations[:3000]], f, default=str)
         if len(self.violations) > 25:
             print(f"... {len(self.violations) - 25} further distinct violations not written")
         cov = dict(self.cov)
